@@ -191,7 +191,8 @@ fn to_slpp(b: &[u8], comp: Option<arrow2::io::ipc::write::Compression>, hash: bo
     let g = slippi::read(Cursor::new(b), Some(&read_opts(false, hash))).map_err(|e| format!("err {}", e))?;
     let mut buf = vec![]; peppi::io::peppi::write(&mut buf, g, Some(&peppi::io::peppi::ser::Opts { compression: comp })).map_err(|e| format!("err {}", e))?; Ok(buf)
 }
-pub fn game_sig(g: &Game) -> String { format!("{} | {} | {} | {:?} | {:?} | {:?}", dump::summary(g), start_json(&g.start), end_json(&g.end), g.metadata, g.hash, g.quirks.map(|q| q.double_game_end)) }
+pub fn game_sig(g: &Game) -> String { format!("{} | {} | {} | {:?} | {:?} | {:?} | start.raw {:016x}/{} end.raw {:?}", dump::summary(g), start_json(&g.start), end_json(&g.end), g.metadata, g.hash, g.quirks.map(|q| q.double_game_end),
+    xxhash_rust::xxh3::xxh3_64(&g.start.bytes.0), g.start.bytes.0.len(), g.end.as_ref().map(|e| crate::suites::hex(&e.bytes.0))) }
 
 fn pprefix(rng: &mut Rng, ctx: &mut Ctx) {
     let comps = [None, Some(arrow2::io::ipc::write::Compression::LZ4), Some(arrow2::io::ipc::write::Compression::ZSTD)];
@@ -312,6 +313,11 @@ fn irr(rng: &mut Rng, ctx: &mut Ctx) {
                 let chunks: Vec<&[u8]> = pay.chunks(512).collect(); let mut blocks = vec![];
                 for (ci, ch) in chunks.iter().enumerate() { let mut b = vec![0x10u8]; b.extend_from_slice(ch); b.extend(std::iter::repeat(0u8).take(512 - ch.len())); b.extend((ch.len() as u16).to_be_bytes()); b.push(code); b.push((ci + 1 == chunks.len()) as u8); blocks.push(b); }
                 body.splice(i..i + 1, blocks); tags.push(format!("wrapped:{:02x}", code)); } }
+        // a payload-size table that declares many event codes this game never uses (a recorder built with every optional event compiled in): up to
+        // the 84 entries the table's one-byte length allows
+        if k % 16 == 9 { let want = [30usize, 80, 29, 60, 28, 75][(k / 16) % 6]; /* (room left for the entries other irregularities of the same case add) */ let mut code = 0x40u8;
+            while sizes.len() + 1 < want && r.extra_payloads.len() < 90 { if !KNOWN.contains(&code) && !r.extra_payloads.iter().any(|x| x.0 == code) && !sizes.iter().any(|x| x.0 == code) { let e = (code, 1 + (rng.next() % 700) as u16); r.extra_payloads.push(e); sizes.push(e); } code = code.wrapping_add(1); if code == 0x3f { break; } }
+            tags.push(format!("table-entries:{}", sizes.len().min(84))); }
         // the follower flag of a Pre / Post event is "non-zero": a recorder that writes another non-zero value than 1 means the follower all the same
         if k % 5 == 2 { let val = [2u8, 255, 0x80, 3][(k / 5) % 4]; let mut any = false; for (i, e) in body.iter_mut().enumerate() { if (e[0] == 0x37 || e[0] == 0x38) && e.len() > 6 && e[6] == 1 && (k / 20) % 2 == 0 || (e[0] == 0x37 || e[0] == 0x38) && e.len() > 6 && e[6] == 1 && i % 2 == 0 { e[6] = val; any = true; } }
             if any { tags.push(format!("follower-flag:{}", val)); } }
@@ -346,7 +352,7 @@ fn irr(rng: &mut Rng, ctx: &mut Ctx) {
         // the same irregular file through a source that returns short reads: unknown payloads are skipped by the same exact reads
         if k % 2 == 0 { let (plan, pname) = plans(rng, x.len(), k / 2); let fl = read_line_chunked(&x, false, hashed, plan);
             let mut c = Case::new(read_cmd(false, hashed, &x), fl.clone()); c.tags = vec![format!("irr-frag:{}", pname)];
-            if fl != l0 { let m = format!("replay with unknown events / junk read through short reads ({}) differs from the read from memory: {} vs {}", pname, &fl[..fl.len().min(160)], &l0[..l0.len().min(160)]); c.fail("C08", m.clone()); c.fail("C12", m.clone()); if hashed { c.fail("C11", m); } }
+            if fl != l0 { let m = format!("replay with unknown events / junk read through short reads ({}) differs from the read from memory: {} vs {}", pname, &fl[..fl.len().min(160)], &l0[..l0.len().min(160)]); c.fail("C08", m.clone()); c.fail("C12", m.clone()); if junk.is_empty() { c.fail("C17", format!("a file as the writer produces it (Game End doubled: {}) does not read back the same through short reads: {}", r.double_end, &m[..m.len().min(160)])); } if hashed { c.fail("C11", m); } }
             ctx.push(c); }
         if r.end.is_some() && k % 3 == 0 {
             let (sl, sg) = read_line(&x, true, k % 2 == 0); let (bsl, _) = read_line(&base, true, false);
@@ -451,7 +457,7 @@ fn maxver(rng: &mut Rng, ctx: &mut Ctx) {
     if ctx.thorough { for a in 0..=255u8 { for b in (0..=255u8).step_by(5) { vs.push((a, b, [0u8, 1, 255][(a as usize + b as usize) % 3])); } } for b in 0..=255u8 { for p in [0u8, 1, 255] { vs.push((3, b, p)); } } }
     for (k, v) in vs.into_iter().enumerate() {
         if v.0 == 0 && v.1 == 0 { continue; }
-        let mut r = simple(v, &[(0, 0, 2), (2, 1, 14)], k % 3, &[], rng); if k % 4 == 0 { r.metadata = None; } if (k + k / 5) % 5 == 2 { r.end = None; /* a game still in progress / cut short: refused or written by its version like any other */ } // zero frames included: the .slpp writer has no frames.arrow then
+        let mut r = simple(v, &[(0, 0, 2), (2, 1, 14)], k % 3, &[], rng); if k % 4 == 0 { r.metadata = None; } if (k + k / 5) % 5 == 2 { r.end = None; /* a game still in progress / cut short: refused or written by its version like any other */ } else if (k + k / 7) % 7 == 3 { r.double_end = true; /* ... and one with the duplicated Game End of some recorder versions */ } // zero frames included: the .slpp writer has no frames.arrow then
         let b = encode(&r);
         let exp_refuse = v > MAXV;
         let mut c = Case::new(format!("rt {}", hex(&b)), String::new()); c.tags = vec![format!("refuse{}", exp_refuse as u8), format!("frames{}", k % 3), if v.0 == 3 && (15..=17).contains(&v.1) { "boundary".into() } else { "far".into() }];
